@@ -1,3 +1,9 @@
 #!/bin/sh
-# built out below; placeholder keeps MANIFEST.setup_cmd valid
-exit 0
+# MANIFEST.setup_cmd: build the framework offline from files on disk only.
+set -e
+cd "$(dirname "$0")"
+export GOFLAGS=-mod=mod GOPROXY=off GOSUMDB=off GOTOOLCHAIN=local
+mkdir -p build evidence replays
+(cd lean && lake build ElysModel driver)
+(cd harness && sh gen_gomod.sh && go test -c -tags verif -o ../build/harness.test .)
+echo setup ok
